@@ -117,10 +117,14 @@ PROPS = {
     "C11": {
         "title": "Replicas computing the same blocks reach the same state hash",
         "model": "Validate.v (map-order independence of the validation decision); all model transitions are Gallina functions",
-        "runs": [app(40, 1500, replicas=REPLICAS)],
+        "runs": [app(40, 1500, replicas=REPLICAS),
+                 {"kind": "upgrade", "profile": "tz", "n_quick": 200, "n_thorough": 6000, "per_shard": 20, "env": {"TZ": "Europe/Warsaw"}},
+                 {"kind": "upgrade", "profile": "tz", "n_quick": 100, "n_thorough": 3000, "per_shard": 20, "env": {"TZ": "America/St_Johns"}}],
         "preds": ["C11."],
         "rule": APP_RULE + "; C11: every history is executed in three separate OS processes with different TZ and GOMAXPROCS; app hash after every Commit, "
-                "DeliverTx (code, codespace, data, events) and BeginBlock/EndBlock events are compared line by line",
+                "DeliverTx (code, codespace, data, events) and BeginBlock/EndBlock events are compared line by line; the v1.2.0 upgrade functions run on "
+                "generated pre-upgrade stores in processes with TZ=Europe/Warsaw and TZ=America/St_Johns, and the account records they write are compared with "
+                "what a node in UTC writes (and with the Coq model of the upgrade)",
         "partial": ["Go-runtime nondeterminism (map iteration order, wall clock, local time zone, goroutine scheduling) lives outside any Gallina model: it is "
                     "only exhibited by the multi-process differential runs; nondeterminism that needs another binary, architecture or Go version is not exhibited"],
         "technique": "machine-checked proof in Coq (order-independence of the map-driven validation decision; functional models) + multi-process differential execution of the real application",
@@ -254,9 +258,9 @@ PROPS = {
     "C20": {
         "title": "No message or query of the custom modules panics on any input",
         "model": "Handlers.v: validate_basic, handle (front door of all 17 messages), q_generic, q_account_info; HandlersSweep.v: decoding of the class vectors",
-        "runs": [sweep(), sweep_values(4000, 120000)],
+        "runs": [sweep(), sweep_values(4000, 120000), minter(60, 2500)],
         "preds": ["C20."],
-        "rule": SWEEP_RULE + "; second stream: messages of the seven cfevesting handlers with randomly drawn values (integers: nil, negative, zero, small, around the "
+        "rule": MINTER_RULE + " (C20: the Inflation query after every block, incl. mint denominations whose supply is still zero and histories with a governance update) | " + SWEEP_RULE + "; second stream: messages of the seven cfevesting handlers with randomly drawn values (integers: nil, negative, zero, small, around the "
                 "balances / pool amounts / locked coins of the prepared state, around 2^63 and 2^64, up to 60 digits; coin lists of 0-3 entries mixing valid, zero, "
                 "negative, nil amounts and valid / unknown / malformed / empty denominations; denomination lists; durations; times), printed as terms of the model's "
                 "message type; distinct = distinct messages",
